@@ -396,8 +396,8 @@ theorem sticky_start_is_logged :
 
 /-! ### non-vacuity: the hypotheses are satisfiable with every deviation switch on -/
 
-def allOn : Cfg := ⟨true, true, true, true, false, false⟩
-def noCohort : Cfg := ⟨true, true, false, true, false, false⟩
+def allOn : Cfg := ⟨true, true, true, true, false, false, true⟩
+def noCohort : Cfg := ⟨true, true, false, true, false, false, true⟩
 
 example : allOn.eagerSettle = false ∧ allOn.lateJoin = false := ⟨rfl, rfl⟩
 example : (start allOn mixProc []).causes = [] := by decide
